@@ -147,24 +147,6 @@ if hdrs.CONNECTION not in headers:
         headers[hdrs.CONNECTION] = "close"
 '''
 
-_EXP_LEN = '''
-if self._chunked:
-    if version != HttpVersion11:
-        raise RuntimeError(f"Using chunked encoding is forbidden for HTTP/{request.version.major}.{request.version.minor}")
-    if not self._must_be_empty_body:
-        writer.enable_chunking()
-        headers[hdrs.TRANSFER_ENCODING] = "chunked"
-elif self._length_check:
-    writer.length = self.content_length
-    if writer.length is None:
-        if version >= HttpVersion11:
-            if not self._must_be_empty_body:
-                writer.enable_chunking()
-                headers[hdrs.TRANSFER_ENCODING] = "chunked"
-        elif not self._must_be_empty_body:
-            keep_alive = False
-'''
-
 _EXP_CLOSE_DEFAULT = '''
 if close is None:
     if version_o <= HttpVersion10:
@@ -233,7 +215,11 @@ def generate() -> str:
     out.append(f"(* helpers.EMPTY_BODY_STATUS_CODES *)\nDefinition empty_body_status (c : N) : bool := {_empty_body_status()}.\n")
     ph = core.find_function("aiohttp/web_response.py", "_prepare_headers", cls="StreamResponse")
     _find_stmt(ph, _EXP_RESP_CONN, "StreamResponse._prepare_headers Connection block")
-    _find_stmt(ph, _EXP_LEN, "StreamResponse._prepare_headers length/chunking block")
+    locals_cleared = [ast.unparse(n) for n in ast.walk(ph) if isinstance(n, ast.Assign)
+                      and any(isinstance(t, ast.Name) and t.id == "keep_alive" for t in n.targets)
+                      and isinstance(n.value, ast.Constant) and n.value.value is False]
+    if locals_cleared != ["keep_alive = False"]:
+        raise TranslatorError(f"_prepare_headers: expected exactly one `keep_alive = False`, found {locals_cleared}")
     # does the HTTP/1.0-without-length branch also clear the stored decision?  (`keep_alive = False` only
     # changes the local that selects the Connection header; self._keep_alive was stored before)
     stores = [ast.unparse(n) for n in ast.walk(ph) if isinstance(n, ast.Assign)
